@@ -380,16 +380,24 @@ impl ops::Shr<&Object> for &Object {
     }
 }
 
+// Bit pattern used to hash a number: both zeros hash alike
+fn float_key_bits(f: f64) -> u64 {
+    if f == 0.0 {
+        0
+    } else {
+        f.to_bits()
+    }
+}
+
 impl Hash for Object {
     fn hash<H: Hasher>(&self, state: &mut H) {
         match self {
-            Object::Integer(ref n) => n.hash(state),
+            // Integers and floats that are equal (1 == 1.0, 0.0 == -0.0) must
+            // hash alike: hash both through the double they compare as
+            Object::Integer(ref n) => state.write_u64(float_key_bits(*n as f64)),
             Object::Char(ref ch) => ch.hash(state),
             Object::Byte(ref b) => b.hash(state),
-            Object::Float(ref f) => {
-                // Use the built-in hash function for f64
-                state.write_u64(f.to_bits());
-            }
+            Object::Float(ref f) => state.write_u64(float_key_bits(*f)),
             Object::Bool(ref b) => b.hash(state),
             Object::Str(ref s) => s.hash(state),
             Object::Builtin(f) => f.name.hash(state),
